@@ -214,10 +214,10 @@ def find_ilis(
     status: Optional[str] = None,
     lexicon_rowids: Sequence[int] = (),
 ) -> Iterator[_ILI]:
-    if status != 'proposed':
-        yield from _find_existing_ilis(
-            id=id, status=status, lexicon_rowids=lexicon_rowids
-        )
+    # an ILI file may give 'proposed' as the status of a listed ILI
+    yield from _find_existing_ilis(
+        id=id, status=status, lexicon_rowids=lexicon_rowids
+    )
     if not id and (not status or status == 'proposed'):
         yield from find_proposed_ilis(lexicon_rowids=lexicon_rowids)
 
